@@ -41,14 +41,22 @@ def arbRound (s : ArbS) : ArbS :=
 
 def termPh (p : Nat) : Bool := p == Ph.succeeded || p == Ph.failed
 
+/-- the phases the Update handler already treats as finished: Succeeded, Failed, Aborted (5) -/
+def finPh (p : Nat) : Bool := p == Ph.succeeded || p == Ph.failed || p == 5
+
+theorem finPh_of_termPh {p : Nat} (h : termPh p = true) : finPh p = true := by
+  simp only [termPh, finPh, Bool.or_eq_true] at h ⊢
+  exact Or.inl h
+
 inductive AOp where
   | add | set (p : Nat) | pod (b : Bool) | round
 deriving DecidableEq, Repr
 
-/-- `guarded` = the candidate repair: the Create handler skips jobs that are already Succeeded / Failed.
+/-- `guarded` = the candidate repair: the Create handler skips jobs that are already Succeeded / Failed / Aborted (the
+    test the Update handler makes).
     `set` is the controller's write: never on a terminal job (Props: terminal_forever). -/
 def arbStep (guarded : Bool) (s : ArbS) : AOp → ArbS
-  | .add => if guarded && termPh s.phase then s else arbAdd s
+  | .add => if guarded && finPh s.phase then s else arbAdd s
   | .set p => if termPh s.phase then s else arbSet s p
   | .pod b => { s with pod := b }
   | .round => arbRound s
